@@ -440,3 +440,67 @@ func c20TypeNames(tt *c20Types) []string {
 	sort.Strings(l)
 	return l
 }
+
+// c20DPlan prints the model decode plan of a harness type (classification of decodeFunc).
+func c20DPlan(t reflect.Type) string {
+	switch {
+	case t == reflect.TypeFor[time.Duration]():
+		return "DLeaf KDuration"
+	case t.Kind() == reflect.Pointer:
+		b := t
+		for b.Kind() == reflect.Pointer {
+			b = b.Elem()
+		}
+		return "DPtr (" + c20DPlan(b) + ")"
+	case t.Kind() == reflect.Int32:
+		return "DLeaf KInt"
+	case t.Kind() == reflect.Int64:
+		return "DLeaf KLong"
+	case t.Kind() == reflect.Bool:
+		return "DLeaf KBool"
+	case t.Kind() == reflect.String:
+		return "DLeaf KStr"
+	case t.Kind() == reflect.Slice && t.Elem().Kind() == reflect.Uint8:
+		return "DLeaf KByteSlice"
+	case t.Kind() == reflect.Slice:
+		e := t.Elem()
+		isPtr := e.Kind() == reflect.Pointer
+		for e.Kind() == reflect.Pointer {
+			e = e.Elem()
+		}
+		return fmt.Sprintf("DSlice %s (%s)", h.Bool(isPtr), c20DPlan(e))
+	case t.Kind() == reflect.Interface:
+		return "DIface"
+	case t.Kind() == reflect.Struct:
+		var fs []string
+		for _, vf := range ttlv.VerifPlan(t) {
+			if vf.Skipped {
+				continue
+			}
+			if vf.Tag == 0 {
+				panic("c20: no model decode plan for dynamically tagged / untagged fields: " + t.String())
+			}
+			rng := "None"
+			if vf.HasRange {
+				st, en := "None", "None"
+				if vf.StartSet {
+					st = h.Some(c20CoqVer(vf.StartMajor, vf.StartMinor))
+				}
+				if vf.EndSet {
+					en = h.Some(c20CoqVer(vf.EndMajor, vf.EndMinor))
+				}
+				rng = fmt.Sprintf("(Some (%s, %s))", st, en)
+			}
+			fs = append(fs, fmt.Sprintf("DField (FOpts %d %s %s %s) (%s)", vf.Tag, h.Bool(vf.OmitEmpty), rng, h.Bool(vf.SetVersion), c20DPlan(t.Field(vf.Index).Type)))
+		}
+		return "DStruct " + h.List(fs)
+	}
+	panic("c20: no model decode plan for " + t.String())
+}
+
+// c20DecRoots: types decoded in the model rows (static tags only).
+var c20DecRoots = []reflect.Type{
+	reflect.TypeFor[c20Plain](), reflect.TypeFor[c20Gated](), reflect.TypeFor[c20Leafs](), reflect.TypeFor[c20Hdr](),
+	reflect.TypeFor[c20Late](), reflect.TypeFor[c20Tree2](), reflect.TypeFor[c20Tree1](), reflect.TypeFor[[]c20Gated](),
+	reflect.TypeFor[c20Msg](), reflect.TypeFor[*c20Leafs](),
+}
